@@ -185,7 +185,7 @@ class PGen:
                 used.append(('ty', tn))
                 es.append(['plain', {'k': 'ty', 'n': tn}, val])
             elif p < 0.72:
-                k = r.choice(['a', 'b', 'o', 3, ('t', 1)])
+                k = r.choice(['a', 'b', 'o', 3, 1, 0, ('t', 1)])
                 if k in used:
                     continue
                 used.append(k)
@@ -353,6 +353,21 @@ def set_at(v, path, new):
     return v
 
 
+def equiv(j):
+    """a value that is == but of another type (1 / True / 1.0, 0 / False / 0.0, 3 / 3.0), or None"""
+    try:
+        v = dec_v(j)
+    except Exception:
+        return None
+    if isinstance(v, bool):
+        return jv(int(v))
+    if isinstance(v, int):
+        return jv(float(v)) if v not in (0, 1) else jv(bool(v))
+    if isinstance(v, float) and v == int(v):
+        return jv(int(v))
+    return None
+
+
 def edit(rng, tj):
     """one edit at a random position of a V json"""
     ps = list(paths(tj))
@@ -362,8 +377,13 @@ def edit(rng, tj):
     if isinstance(node, dict) and 'd' in node:
         ch = rng.random()
         d = copy.deepcopy(node['d'])
-        if ch < 0.4 and d:
+        if ch < 0.3 and d:
             del d[rng.randrange(len(d))]
+        elif ch < 0.5 and d:
+            # change one key: to an equal value of another type, or to another key
+            i = rng.randrange(len(d))
+            e = equiv(d[i][0])
+            d[i][0] = e if e is not None and rng.random() < 0.7 else jv(rng.choice(['a', 'b', 1, 3, 'k9']))
         elif ch < 0.8:
             d.append([jv(rng.choice(['zz', 99, 'b'])), jv(rng.choice([1, 'v', None]))])
         else:
@@ -390,7 +410,10 @@ def edit(rng, tj):
             return set_at(tj, path, {key: items})
         swap = {'l': 't', 't': 'l', 'set': 'fs', 'fs': 'set'}[key]
         return set_at(tj, path, {swap: items})
-    # scalar: another scalar (usually of another type)
+    # scalar: an equal value of another type, or another scalar (usually of another type)
+    e = equiv(node)
+    if e is not None and rng.random() < 0.35:
+        return set_at(tj, path, e)
     cands = [s for s in scalars if s != node]
     new = rng.choice(cands)
     # inside a set the replacement must stay hashable and distinct - scalars are
